@@ -24,6 +24,10 @@ PROPFAIL signatures (the implementation's own heap violates the discipline):
 * `heap-saved-version-changed` — the abstraction of a saved version / an open view differs from the
   one first observed
 * `heap-node-missing` — a child hash resolves neither in the cache nor in the DB
+* `heap-view-differs-from-saved-version` — the tree below a view handle opened at version v is not the
+  tree below the root record of version v (dumped in the same snapshot)
+* `historical-read` / `working-read` — an answer through a held view / the working tree differs from
+  the map specification of that tree
 DIFF: an answer or the abstraction of a dumped root differs from the pure model; an unhashed,
 unpersisted object was written in place (the model's clone discipline is not the code's).
 -/
@@ -37,6 +41,7 @@ structure DSt where
   tree : Tree := {}
   views : List (Nat × Option (Option Node)) := []     -- view id ↦ model tree (`none` if the open failed in the model)
   nextV : Nat := 0
+  vvers : List (Nat × Nat) := []                      -- view id ↦ the version it was opened at
   cells : Std.HashMap Nat Cell := {}                  -- object id ↦ last observed state
   recs : Std.HashMap Nat Stored := {}                 -- hash id ↦ DB record
   res : Std.HashMap Nat Res := {}                     -- hash id ↦ how GetNode resolves it now
@@ -250,6 +255,19 @@ def rootToken (a : HAcc) (tok : String) : HAcc :=
             else a.fail "heap-saved-version-changed" s!"{label}: was {renderTree t0} now {renderTree t}"
           | none => { a with st := { a.st with first := a.st.first.insert label t } }
         else a
+      -- a view handle of version v must show the tree the root record of version v shows
+      let a :=
+        if label.startsWith "X" then
+          match ((label.drop 1).toNat?).bind (fun id => (a.st.vvers.find? (·.1 == id)).map (·.2)) with
+          | some ver =>
+            match a.st.first[s!"V{ver}"]? with
+            | some tv =>
+              if tv == t then a
+              else a.fail "heap-view-differs-from-saved-version"
+                s!"{label} (opened at version {ver}) shows {renderTree t}, the root record of version {ver} shows {renderTree tv}"
+            | none => a
+          | none => a
+        else a
       match modelRoot st label with
       | some mt => if mt == t then a else a.diff s!"abs({label}) differs from the model: impl {renderTree t}, model {renderTree mt} (contents equal: {renderTree t == renderTree mt})"
       | none => a.diff s!"{label}: the model has no such root"
@@ -258,7 +276,10 @@ def rootToken (a : HAcc) (tok : String) : HAcc :=
 def heapLine (st : DSt) (toks : List String) : DSt × Verdict :=
   let a : HAcc := { st := st }
   let a := toks.foldl heapToken a
-  let a := toks.foldl rootToken a
+  -- version root records first (a view handle is compared with its version's record)
+  let isV (t : String) : Bool := t.startsWith "R,V"
+  let a := (toks.filter isV).foldl rootToken a
+  let a := (toks.filter (fun t => !isV t)).foldl rootToken a
   let v :=
     match a.fails, a.diffs, a.bad with
     | (sg, d) :: _, _, _ => Verdict.propfail sg d
@@ -272,9 +293,17 @@ def targetRoot (st : DSt) (tok : String) : Option (Option Node) :=
   else if tok.startsWith "x" then ((tok.drop 1).toNat?).bind (fun id => ((st.views.find? (·.1 == id)).map (·.2)).join)
   else none
 
+/-- A read: first against the map specification of the targeted (saved or working) tree — a wrong
+answer is a failing input (`historical-read` through a view, `working-read`) — then against the model. -/
 def readLine (st : DSt) (line impl : String) (tok : String) (r : Read) : DSt × Verdict :=
   match targetRoot st tok with
-  | some root => (st, judge "read" line (renderRead (some (readRoot root r))) impl)
+  | some root =>
+    let specS := renderRead (some (KVs.read (contents root) r))
+    let modelS := renderRead (some (readRoot root r))
+    if impl.startsWith "PANIC" then (st, .propfail "impl-panic" s!"{line} => {impl}")
+    else if impl != specS then
+      (st, .propfail (if tok = "w" then "working-read" else "historical-read") s!"{line}: spec={specS} impl={impl}")
+    else (st, judge "read" line modelS impl)
   | none => (st, .bad s!"unknown target {tok}")
 
 def b (s : String) : Bool := s == "1"
@@ -472,7 +501,9 @@ def step0 (st : DSt) (pre post : List String) : DSt × Verdict :=
             | none => ("err", none)
       let vd := judge "open" line s impl
       if impl.startsWith "x" then
-        ({ st with views := (st.nextV, mt) :: st.views, nextV := st.nextV + 1 }, vd)
+        let latest : Nat := st.tree.versions.foldl (fun m p => max m p.1) 0
+        let ver : Nat := if kind == "I" then vv.toNat else (if vv ≤ (0 : Int) then latest else vv.toNat)
+        ({ st with views := (st.nextV, mt) :: st.views, vvers := (st.nextV, ver) :: st.vvers, nextV := st.nextV + 1 }, vd)
       else (st, vd)
     | none => (st, .bad "open args")
   | ["drop", x] =>
